@@ -186,6 +186,22 @@ pub fn run(tier: Tier, seed: u64) -> i32 {
                 vectors.push(("minus-naf(r_j-s)".into(), d));
             }
         }
+        // neighbours of s: s + 1, s - 1 as NAF, and the honest NAF with its
+        // least significant digit moved by one
+        for (name, x) in [("s+1", Some(us.add(&U320::from_u64(1)))), ("s-1", us.checked_sub(&U320::from_u64(1)))] {
+            if let Some(d) = x.and_then(|x| naf_digits(&x)) {
+                vectors.push((format!("naf({name})"), d));
+            }
+        }
+        if let Some(mut d) = naf_digits(&us) {
+            d[0] = if d[0] == 0 { 1 } else { 0 };
+            vectors.push(("lowest-digit-moved(other)".into(), d));
+            let mut d2 = naf_digits(&us).unwrap();
+            if d2[0] == 0 {
+                d2[0] = -1;
+                vectors.push(("lowest-digit-minus-one(other)".into(), d2));
+            }
+        }
         vectors.push(("all-ones".into(), [1i8; 256]));
         vectors.push(("all-minus-ones".into(), [-1i8; 256]));
         vectors.push(("all-zero".into(), [0i8; 256]));
@@ -202,6 +218,7 @@ pub fn run(tier: Tier, seed: u64) -> i32 {
         // witness that the scalar passes (a range check or a decomposition of
         // a width it fits): the widget must be exactly as strict as alone
         let mut ops = vec![Op::Witness(0)];
+        let mut result_preg = 1usize;
         if ci % 2 == 1 {
             let bl = us.bits();
             let mut pre: Vec<(&str, Op)> = Vec::new();
@@ -215,13 +232,25 @@ pub fn run(tier: Tier, seed: u64) -> i32 {
                 pre.push(("truncate", Op::Truncate(252, 2)));
             }
             pre.push(("range_bits_255", Op::RangeBits(255, 2)));
+            if canonical {
+                // the same scalar witness already multiplied by another generator
+                // (the usual sk*G, sk*G' pattern): the second multiplication must
+                // be as strict as the first
+                let other = if gname == "GENERATOR" { GENERATOR_NUMS_EXTENDED } else { GENERATOR_EXTENDED };
+                pre.push(("mul_generator_same_scalar", Op::MulGenerator(2, other)));
+                pre.push(("mul_generator_same_scalar_same_generator", Op::MulGenerator(2, g)));
+                pre.push(("mul_generator_same_scalar", Op::MulGenerator(2, other)));
+            }
             let (pn, po) = pre[(ci as usize / 2) % pre.len()].clone();
             ev.bucket("widget.in_context");
             ev.set_insert("widget_context_preludes", format!("{pn}:{}", po.tag().split('(').next().unwrap_or("")));
+            if matches!(po, Op::MulGenerator(..)) {
+                result_preg = 2;
+            }
             ops.push(po);
         }
         ops.push(Op::SeamFixedBase(2, g, 0));
-        ops.push(Op::PointCoords(1));
+        ops.push(Op::PointCoords(result_preg));
         let prog = Arc::new(Program { ops, n_scalar_inputs: 1, n_point_inputs: 0, n_digit_inputs: 1 });
         let layout = match common::build_instance(&prog, &Inputs::default_for(&prog), &[]) {
             Ok((l, _)) => l,
